@@ -49,6 +49,7 @@ class SimQueue:
         self.maxsize = maxsize
         self.items = []
         self.waiters = []
+        self.put_waiters = []
         self.name = "q"
         self.unfinished = 0
 
@@ -69,15 +70,40 @@ class SimQueue:
         s = _sim()
         if s is not None:
             s.step("put", (self.name, msg_id(item)))
+        if self.full():
+            if s is None or not block:
+                raise _queue.Full
+            deadline = None if timeout is None else s.now + timeout
+            me = s.me()
+            while self.full():
+                self.put_waiters.append(me)
+                how = s.block("putwait", self,
+                              None if deadline is None else deadline - s.now)
+                if me in self.put_waiters:
+                    self.put_waiters.remove(me)
+                if self.full() and how == "timeout":
+                    s.note("put.full", self.name)
+                    s.count("queue_full")
+                    raise _queue.Full
         if s is not None:
             s.inflight += 1
             if isinstance(item, str) and len(self.items) >= 2:
                 s.count("marker_behind_backlog")
         self.items.append(item)
+        if s is not None and len(self.items) > s.counters.get(
+                "max_backlog", 0):
+            s.counters["max_backlog"] = len(self.items)
         self.unfinished += 1
         if s is not None and self.waiters:
             w = self.waiters[0]
             s._wake(w, "notified")
+
+    def _pop(self, s):
+        s.inflight -= 1
+        item = self.items.pop(0)
+        if self.put_waiters:
+            s._wake(self.put_waiters[0], "notified")
+        return item
 
     def put_nowait(self, item):
         return self.put(item, block=False)
@@ -94,13 +120,11 @@ class SimQueue:
         if not block:
             s.step("get_nowait", self.name)
             if self.items:
-                s.inflight -= 1
-                return self.items.pop(0)
+                return self._pop(s)
             raise _queue.Empty
         s.step("get", self.name)
         if self.items:
-            s.inflight -= 1
-            return self.items.pop(0)
+            return self._pop(s)
         if timeout is not None and timeout < 0:
             raise ValueError("'timeout' must be a non-negative number")
         deadline = None if timeout is None else s.now + timeout
@@ -112,8 +136,7 @@ class SimQueue:
             if self.items:
                 if how == "timeout":
                     s.count("timeout_then_item_present")
-                s.inflight -= 1
-                return self.items.pop(0)
+                return self._pop(s)
             if how == "timeout":
                 s.note("timeout", self.name)
                 raise _queue.Empty
